@@ -161,6 +161,80 @@ theorem C13_prepare_supersedes (d : Device) (docs : List Nat) (h : atMax d.encCt
     simp
     intro x hx; exact Or.inr hx
 
+/-! ### Every prepared response is retrievable — for ANY number of documents
+
+After `prepare_response` over any non-empty list of documents, submitting one signature per document
+(whatever the signatures are) leaves a ready response; it pairs every document with the signature
+submitted while that document's payload was on offer (last prepared document first), and
+`retrieve_response` hands out exactly that response. -/
+
+theorem submit_nonfinal (d : Device) (doc sig : Nat) (p : List Nat) (s : List (Nat × Nat)) (st : Nat)
+    (hst : d.st = .signing p s st) (hl : p.getLast? = some doc) (hd : p.dropLast ≠ []) :
+    d.submit sig = { d with st := .signing p.dropLast (s ++ [(doc, sig)]) st } := by
+  unfold Device.submit
+  rw [hst]
+  simp only [attach, hl]
+  unfold Device.finalizeIfComplete
+  cases hp : p.dropLast with
+  | nil => exact absurd hp hd
+  | cons a l => rfl
+
+theorem submitAll_signing (sigs : List Nat) : ∀ (d : Device) (p : List Nat) (s : List (Nat × Nat)) (st : Nat),
+    d.st = .signing p s st → p ≠ [] → sigs.length = p.length →
+    (sigs.foldl Device.submit d).st = .ready (staged d st (s ++ p.reverse.zip sigs)) := by
+  induction sigs with
+  | nil => intro d p s st _ hne hl; cases p with
+    | nil => exact absurd rfl hne
+    | cons a l => simp at hl
+  | cons sig sigs ih =>
+    intro d p s st hst hne hl
+    obtain ⟨doc, hdoc⟩ : ∃ doc, p.getLast? = some doc := by
+      cases hp : p.getLast? with
+      | none => exact absurd (List.getLast?_eq_none_iff.mp hp) hne
+      | some x => exact ⟨x, rfl⟩
+    have hn : d.getNext = some doc := by unfold Device.getNext; rw [hst]; exact hdoc
+    have hpd : p = p.dropLast ++ [doc] := by
+      obtain ⟨ys, hys⟩ := List.getLast?_eq_some_iff.mp hdoc
+      rw [hys]; simp
+    have hrev : p.reverse = doc :: p.dropLast.reverse := by
+      conv => lhs; rw [hpd]
+      simp
+    have hlen : p.dropLast.length = sigs.length := by
+      simp only [List.length_dropLast, List.length_cons] at hl ⊢; omega
+    simp only [List.foldl_cons]
+    by_cases hd : p.dropLast = []
+    · have hs0 : sigs = [] := by
+        rw [hd] at hlen; exact List.length_eq_zero_iff.mp hlen.symm
+      subst hs0
+      rcases C13_submit_pairs d doc sig p s st hst hn with ⟨_, h2⟩ | ⟨h1, _⟩
+      · exact absurd hd h2
+      · simp only [List.foldl_nil, h1, hrev, hd, List.reverse_nil, List.zip_cons_cons, List.zip_nil_right]
+    · rw [submit_nonfinal d doc sig p s st hst hdoc hd]
+      have := ih { d with st := .signing p.dropLast (s ++ [(doc, sig)]) st } p.dropLast (s ++ [(doc, sig)]) st rfl hd hlen.symm
+      rw [this, hrev]
+      simp [staged]
+
+theorem C13_sign_all_then_retrievable (d : Device) (docs sigs : List Nat) (hne : docs ≠ [])
+    (hl : sigs.length = docs.length) :
+    (sigs.foldl Device.submit (d.prepare docs)).responseReady = true ∧
+    (sigs.foldl Device.submit (d.prepare docs)).getNext = none ∧
+    ((sigs.foldl Device.submit (d.prepare docs)).retrieve).2 = some (staged d 0 (docs.reverse.zip sigs)) := by
+  have hp : d.prepare docs = { d with st := .signing docs [] 0 } := by
+    unfold Device.prepare Device.finalizeIfComplete
+    cases docs with
+    | nil => exact absurd rfl hne
+    | cons a l => rfl
+  have h := submitAll_signing sigs (d.prepare docs) docs [] 0 (by rw [hp]) hne hl
+  have hs : staged (d.prepare docs) 0 ([] ++ docs.reverse.zip sigs) = staged d 0 (docs.reverse.zip sigs) := by
+    rw [hp]; simp [staged]
+  rw [hs] at h
+  simp [Device.responseReady, Device.getNext, Device.retrieve, h]
+
+/-- non-vacuity: three documents, three signatures; the last prepared document is signed first -/
+example :
+    ((([7, 8, 9].foldl Device.submit ((World.established 1).dev.prepare [0, 1, 2])).retrieve).2) =
+      some (staged (World.established 1).dev 0 [(2, 7), (1, 8), (0, 9)]) := by decide
+
 /-- FULL-STRENGTH: in every reachable state of every call sequence, a Signing state has an
 unsigned document (it offers a payload); i.e. the response is ready exactly when no unsigned
 document remains, and nothing is ever stuck waiting for an invented signature. -/
